@@ -39,6 +39,9 @@ type replayWriter struct {
 }
 
 func (w *replayWriter) WriteTo(out io.Writer, _ chan struct{}) (int64, error) {
+	if w.wrote > len(w.data) {
+		w.wrote = len(w.data)
+	}
 	n, err := out.Write(w.data[:w.wrote])
 	if err != nil {
 		return int64(n), err
